@@ -63,9 +63,10 @@ CreatedOnce(h, k) == Count(h, "app", "method_context_created") <= 1
 ClosedOnce(h, k)  == Count(h, "app", "method_context_closed") <= 1
                      /\ (k.done => Count(h, "app", "method_context_closed") = 1)
 \* "... and method_context_closed last"
-ClosedLast(h, k) == k.done => \A i \in Idx(h) :
-                      (h[i][1] \in CtxMgr /\ h[i][2] # "method_context_closed")
-                         => i < First(h, "app", "method_context_closed")
+ClosedLast(h, k) == k.done => /\ Has(h, "app", "method_context_closed")
+                              /\ \A i \in Idx(h) :
+                                   (h[i][1] \in CtxMgr /\ h[i][2] # "method_context_closed")
+                                      => i < First(h, "app", "method_context_closed")
 \* "the user function runs at most once and only after method_call"
 FnAtMostOnce(h) == Count(h, "fn", "call") <= 1
 FnAfterCall(h)  == Has(h, "fn", "call") =>
@@ -81,7 +82,7 @@ ExcObjIffFault(h, k) == k.done => /\ (Has(h, "app", "method_exception_object") <
 Redirected(k) == "redirect" \in DOMAIN k /\ k.redirect
 NoDocStr(h) == /\ ~Has(h, "app", "method_return_document") /\ ~Has(h, "app", "method_return_string")
                /\ ~Has(h, "app", "method_exception_document") /\ ~Has(h, "app", "method_exception_string")
-DocStrMatch(h, k) == k.done =>
+DocStrMatch(h, k) == (k.done /\ k.rpc) =>          \* (a ?wsdl fetch is not a call: it has a context, and no call events)
   IF Redirected(k) THEN NoDocStr(h)       \* a redirect is neither a result nor a fault: no document is built
   ELSE IF ~k.fault
     THEN /\ Count(h, "app", "method_return_document") = 1
